@@ -12,6 +12,7 @@ EXTENDS Core, BEP3, BEP52, TLC, Json, IOUtils
 Recs == ndJsonDeserialize(IOEnv.TRACE_FILE)
 \* the implementation-shaped hasher models at the real block size: what THEY predict (clause M10.impl)
 HV == INSTANCE HasherV2 WITH MaxPieces <- 0, PieceLens <- {}, Classes <- {}, Variant <- "code", st <- 0
+AS == INSTANCE Assemble WITH MaxFiles <- 0, MaxSize <- 0, PieceLens <- {}, Variant <- "code", sizes <- 0, P <- 0, single <- 0
 H1 == INSTANCE HasherV1 WITH MaxFiles <- 0, MaxSize <- 0, PieceLens <- {}, Variant <- "fixed", Aligns <- {}, st <- 0
 
 VARIABLES i, grp
@@ -103,6 +104,10 @@ Clause(r, c) ==
     [] c = "C03.padattr" -> r.single \/ (m.has_files /\ WellFormed(m) /\ m.plen > 0 /\
                               \A k \in DOMAIN m.files : m.files[k].pad => (k > 1 /\ ~m.files[k - 1].pad))
     [] c = "C03.pieces" -> r.single \/ (m.has_files /\ WellFormed(m) /\ PiecesAre(m, DeclTotal(m)))
+    [] c = "M03.impl" ->   \* the Assemble model predicts the hybrid file list (payload and padding entries)
+         LET sz == [k \in DOMAIN m.leaves |-> m.leaves[k].length]
+             a == AS!Assembled(sz, m.plen, r.single)
+         IN [k \in DOMAIN m.files |-> <<IF m.files[k].pad THEN "p" ELSE "f", m.files[k].length>>] = a.files
     [] c = "C03.single" -> r.single => (/\ ~m.has_files /\ SingleDisk(r)
                                         /\ m.length = r.disk[1].size
                                         /\ PiecesAre(m, m.length))
